@@ -57,7 +57,7 @@ NOEFFECT_CALLS = {'self.log.add_entries', 'self.log.append'}
 
 class Mask:
     """ per-agent Bool; `e` is a Lean-expression tree """
-    def __init__(self, e): self.e = e
+    def __init__(self, e, uk=False): self.e = e; self.uk = uk      # uk: known to be a uid array (not a BoolArr)
 
 class Rvs:
     """ result of `<dist>.rvs(U)`: boolean outcome (atom) or a number array, decided by how it is used """
@@ -72,8 +72,8 @@ class ArrRef:
     def __init__(self, name): self.name = name
 
 class FlagRef:
-    """ the flag array object itself (assignable) """
-    def __init__(self, name): self.name = name
+    """ the flag array object itself (assignable); raw=True for `self.flag.raw` (indexable by uid arrays only) """
+    def __init__(self, name, raw=False): self.name = name; self.raw = raw
 
 class Obj:
     """ object path (self, self.sim, self.pars, ...) """
@@ -440,7 +440,9 @@ class Translator:
         # attribute of a computed value
         v = self.ev(node.value, env, ci, fn)
         if node.attr == 'uids':
-            return Mask(self.as_mask(v, '.uids base', node.value))
+            return Mask(self.as_mask(v, '.uids base', node.value), uk=True)
+        if node.attr == 'raw' and isinstance(v, FlagRef):
+            return FlagRef(v.name, raw=True)
         if node.attr in ('raw', 'values') and isinstance(v, ArrRef):
             return Opaque()
         if isinstance(v, Opaque):   # attribute of a parameter / result object
@@ -478,7 +480,7 @@ class Translator:
             if isinstance(idx, Rvs):
                 if render(idx.base) != render(b):
                     raise ExtractError(f'line {node.lineno}: boolean index drawn for a different uid set')
-                return Mask(('and', b, ('not', idx.atom) if idx.neg else idx.atom))
+                return Mask(('and', b, ('not', idx.atom) if idx.neg else idx.atom), uk=True)
             raise ExtractError(f'line {node.lineno}: unsupported index into a uid set `{unparse(node)[:60]}`')
         if isinstance(base, FlagRef):
             # reading flag values for a uid set: a per-agent mask restricted to that set
@@ -503,7 +505,7 @@ class Translator:
         if ftxt in ('np.setdiff1d', 'np.intersect1d', 'np.union1d') and len(args) == 2 and not kws:
             a = self.as_mask(self.ev(args[0], env, ci, fn), 'set operand', args[0])
             b = self.as_mask(self.ev(args[1], env, ci, fn), 'set operand', args[1])
-            return Mask({'np.setdiff1d': ('and', a, ('not', b)), 'np.intersect1d': ('and', a, b), 'np.union1d': ('or', a, b)}[ftxt])
+            return Mask({'np.setdiff1d': ('and', a, ('not', b)), 'np.intersect1d': ('and', a, b), 'np.union1d': ('or', a, b)}[ftxt], uk=True)
         if ftxt in PURE_FUNCS:
             for a in args: self.ev(a, env, ci, fn)
             for k in kws: self.ev(k.value, env, ci, fn)
@@ -536,7 +538,7 @@ class Translator:
                     base = self.as_mask(a, f'{meth} argument', args[0])
                     atom = self.new_atom('filter', rp, rp.split('.')[-1], node, stmt=stmt or node, call=meth)
                     if meth == 'filter':
-                        return Mask(('and', base, atom))
+                        return Mask(('and', base, atom), uk=True)
                     return Rvs(base, atom)
                 if meth == 'rvs':      # rvs(n): plain numbers
                     self.numeric(a, args[0]); return Opaque()
@@ -595,9 +597,11 @@ class Translator:
                     e = self.as_mask(v, 'value', st.value)
                     nm = self.fresh(tgt.id)
                     self.ops.append(('let', nm, e, f'{self.cur_file}:{st.lineno}  {tgt.id} = {unparse(st.value)[:80]}'))
-                    v = Mask(('var', nm))
+                    v = Mask(('var', nm), uk=isinstance(v, Param) or getattr(v, 'uk', False))
                 elif isinstance(v, LenOf):
                     raise ExtractError(f'{where}: len() stored in a variable')
+                elif isinstance(v, Opaque) and not v.text and isinstance(st.value, ast.BinOp):
+                    v = Opaque(); v.tree = self._num_tree(st.value, env)     # e.g. `dur = ti + <draw>`: remember the structure
                 env[tgt.id] = v
                 return
             if isinstance(tgt, ast.Subscript):
@@ -657,6 +661,9 @@ class Translator:
         if isinstance(base, FlagRef):
             if aug: raise ExtractError(f'{where}: augmented assignment to flag {base.name}')
             idx = self.ev(tgt.slice, env, ci, fn)
+            if base.raw and not (isinstance(idx, Param) or getattr(idx, 'uk', False)):
+                # `flag.raw[BoolArr]` would index storage positions, not agents: only uid arrays are equivalent to `flag[uids]`
+                raise ExtractError(f'{where}: `{base.name}.raw[...]` indexed by something not known to be a uid array')
             m = self.as_mask(idx, 'flag index', tgt.slice)
             if not (isinstance(value, ast.Constant) and isinstance(value.value, bool)):
                 raise ExtractError(f'{where}: flag {base.name} assigned a non-literal value `{unparse(value)[:40]}`')
@@ -674,6 +681,10 @@ class Translator:
             self.writes[base.name] = self.writes.get(base.name, 0) + 1
             self.timers.append(dict(array=base.name, line=st.lineno, file=self.cur_file, op='+=' if aug else '=',
                                     rhs=self.canon(value, env)[:120], mask=mtxt[:120]))
+            if base.name.startswith('ti_'):
+                tree = self.num_tree(value, env) if not aug else ('free', self.canon(value, env))
+                self.ops.append(('tset', base.name, self.pc_expr(self.as_mask(idx, 'index', tgt.slice)), tree,
+                                 f'{self.cur_file}:{st.lineno}  {unparse(st)[:90]}'))
             return
         if isinstance(base, Opaque):
             # results / parameter containers: `r.env_prev[ti] = ...`; never a flag
@@ -687,8 +698,77 @@ class Translator:
             return
         raise ExtractError(f'{where}: unsupported subscript assignment `{unparse(st)[:70]}`')
 
+    NOW_PATHS = ('self.ti', 'self.t.ti', 'self.sim.ti')
+
+    def num_tree(self, node, env):
+        tr = self._num_tree(node, env)
+        if tr[0] in ('dur', 'free'):
+            self.nserial = getattr(self, 'nserial', 0) + 1
+            tr = (tr[0], tr[1], self.nserial)
+        return tr
+
+    def serialise(self, tr):
+        if tr[0] == 'add': return ('add', self.serialise(tr[1]), self.serialise(tr[2]))
+        if tr[0] in ('dur', 'free'):
+            self.nserial = getattr(self, 'nserial', 0) + 1
+            return (tr[0], tr[1], self.nserial)
+        return tr
+
+    def _num_tree(self, node, env):
+        """ right-hand side of a timer write as ('now') | ('timer', name) | ('dur', text) | ('add', a, b) | ('free', text):
+            `dur` = an opaque duration (a drawn / rounded number, assumed non-negative by the timer theorems),
+            `free` = anything else (no assumption) """
+        if isinstance(node, ast.Name):
+            v = env.get(node.id)
+            if isinstance(v, Opaque) and v.text in self.NOW_PATHS: return ('now',)
+            if isinstance(v, Opaque) and getattr(v, 'tree', None) is not None: return self.serialise(v.tree)
+            if isinstance(v, (Rvs, Opaque)): return ('dur', self.canon(node, env))
+            return ('free', self.canon(node, env))
+        p = self.path_of(node, env)
+        if p in self.NOW_PATHS: return ('now',)
+        if p and p.startswith('self.') and p[5:] in self.arrs and p[5:].startswith('ti_'): return ('timer', p[5:])
+        if isinstance(node, ast.Subscript):
+            b = self.path_of(node.value, env)
+            if b and b.startswith('self.') and b[5:] in self.arrs and b[5:].startswith('ti_'): return ('timer', b[5:])
+            if isinstance(node.value, ast.Name) and isinstance(env.get(node.value.id), (Rvs, Opaque)):
+                return ('dur', self.canon(node, env))
+            return ('free', self.canon(node, env))
+        if isinstance(node, ast.BinOp) and isinstance(node.op, ast.Add):
+            return ('add', self.num_tree(node.left, env), self.num_tree(node.right, env))
+        if isinstance(node, ast.Call):
+            txt = unparse(node.func)
+            if txt in ('rr', 'sc.randround') and len(node.args) == 1:       # rounding a non-negative number keeps it non-negative
+                inner = self.num_tree(node.args[0], env)
+                return ('dur', self.canon(node, env)) if inner[0] == 'dur' else ('free', self.canon(node, env))
+            if isinstance(node.func, ast.Attribute) and node.func.attr == 'rvs':
+                return ('dur', self.canon(node, env))
+        return ('free', self.canon(node, env))
+
     # ---- dead-code elimination and rendering ---------------------------------
     def finish(self):
+        all_ops = self.ops
+        # timer view: every flag update (masks may read flags), every timer write, the lets they need
+        def has_flag(e):
+            return e[0] == 'flag' or (e[0] in ('and', 'or', 'xor') and (has_flag(e[1]) or has_flag(e[2]))) or (e[0] == 'not' and has_flag(e[1]))
+
+        def timer_view(outputs):
+            tl_vars, tl_atoms = set(), set()
+            tkeep = [False] * len(all_ops)
+            for i in range(len(all_ops) - 1, -1, -1):
+                op = all_ops[i]
+                if op[0] in outputs:
+                    tkeep[i] = True
+                    for k, n in refs(op[2], set()): (tl_vars if k == 'var' else tl_atoms).add(n)
+                elif op[0] == 'let' and op[1] in tl_vars:
+                    tkeep[i] = True
+                    for k, n in refs(op[2], set()): (tl_vars if k == 'var' else tl_atoms).add(n)
+            return [op for op, k in zip(all_ops, tkeep) if k], tl_atoms
+        t_ops, tl_atoms = timer_view(('tset',))
+        if any(has_flag(op[2]) for op in t_ops):     # a timer mask reads flags: keep the flag updates as well
+            t_ops, tl_atoms = timer_view(('tset', 'set'))
+        self.t_ops = t_ops
+        self.t_atoms = [a for a in self.atoms if a['field'] in tl_atoms]
+        self.ops = [op for op in all_ops if op[0] != 'tset']
         live_vars, live_atoms = set(), set()
         keep = [False] * len(self.ops)
         for i in range(len(self.ops) - 1, -1, -1):
@@ -708,7 +788,8 @@ class Translator:
         ops = [op for op, k in zip(self.ops, keep) if k]
         atoms = [a for a in self.atoms if a['field'] in live_atoms]
         pruned = [a for a in self.atoms if a['field'] not in live_atoms]
-        return dict(ops=ops, atoms=atoms, pruned=pruned, timers=self.timers, events=self.events, defined_in=self.defined_in)
+        return dict(ops=ops, atoms=atoms, pruned=pruned, timers=self.timers, events=self.events, defined_in=self.defined_in,
+                    t_ops=self.t_ops, t_atoms=self.t_atoms)
 
 
 def render_method(lean_name, gname, res):
@@ -734,12 +815,83 @@ def render_method(lean_name, gname, res):
             lines.append(f'  let s := {{ s with {op[1]} := if {render(op[2])} then {v} else s.{op[1]} }}')
     lines.append('  s')
     lines.append('')
+    has_uids = 'p_uids' in fields
+    lines.append(f'/-- the agent is in the `uids` argument (`true` when the method ignores the argument) -/')
+    lines.append(f'def {gname}.uids ({gvar if has_uids else "_g"} : {gname}) : Bool := {"g.p_uids" if has_uids else "true"}')
     lines.append(f'def {gname}.ofList : List Bool → Option {gname}')
     pat = ', '.join(fields)
     lines.append(f'  | [{pat}] => some ⟨{pat}⟩' if fields else '  | [] => some ⟨⟩')
     lines.append('  | _ => none')
     lines.append('')
     return lines
+
+
+def render_timers(cls, arrs, res):
+    """ Lean timer model of set_prognoses: Timers record, durations, guards, `setPrognosesTimers` """
+    timers = [a for a in arrs if a.startswith('ti_')]
+    L = ['/-! ### scheduled times written by `set_prognoses` -/',
+         f'/-- the `ti_*` arrays of `{cls}` for one agent (`none` = nan) -/', 'structure Timers where']
+    for t in timers: L.append(f'  {t} : Option Rat')
+    L += ['deriving DecidableEq, Repr', '',
+          f'def Timers.const (v : Option Rat) : Timers := ⟨{", ".join("v" for _ in timers)}⟩', '']
+    durs, frees = [], []
+    names = {}
+    def walk(tr):
+        if tr[0] == 'add': walk(tr[1]); walk(tr[2])
+        elif tr[0] in ('dur', 'free'):
+            key = tr
+            if key not in names:
+                base = ('d_' if tr[0] == 'dur' else 'x_') + lean_ident(tr[1])[:40]
+                nm = base; k = 1
+                while nm in names.values(): k += 1; nm = f'{base}_{k}'
+                names[key] = nm
+                (durs if tr[0] == 'dur' else frees).append((nm, tr[1]))
+    for op in res['t_ops']:
+        if op[0] == 'tset': walk(op[3])
+    L.append('/-- opaque numbers used by the timer writes: `d_*` durations (drawn / rounded; the theorems assume them non-negative), `x_*` anything else -/')
+    L.append('structure SetPrognosesD where')
+    for nm, txt in durs: L += [f'  /-- `{txt}` -/', f'  {nm} : Rat']
+    for nm, txt in frees: L += [f'  /-- `{txt}` -/', f'  {nm} : Option Rat']
+    L += ['deriving DecidableEq, Repr', '']
+    conj = ' ∧ '.join(f'0 ≤ d.{nm}' for nm, _ in durs) or 'True'
+    L.append(f'def SetPrognosesD.nonneg ({"d" if durs else "_d"} : SetPrognosesD) : Prop := {conj}')
+    L.append('instance (d : SetPrognosesD) : Decidable d.nonneg := by unfold SetPrognosesD.nonneg; exact inferInstance')
+    tup = ', '.join([nm for nm, _ in durs] + ['none' for _ in frees])
+    body = f'[(⟨{tup}⟩ : SetPrognosesD)]'
+    for nm, _ in reversed(durs):
+        body = f'([0, 1] : List Rat).flatMap fun {nm} => {body}'
+    L.append('/-- every assignment of 0 / 1 to the durations (a finite search space for the counterexample theorems) -/')
+    L.append(f'def SetPrognosesD.all01 : List SetPrognosesD := {body}')
+    L.append('')
+    fields = [a['field'] for a in res['t_atoms']]
+    L.append('/-- guard atoms that select which agents a timer write applies to -/')
+    L.append('structure SetPrognosesTG where')
+    for a in res['t_atoms']:
+        L += [f'  /-- {a["kind"]}: `{a["text"]}` (line {a["line"]}) -/', f'  {a["field"]} : Bool']
+    L += ['deriving DecidableEq, Repr', '']
+    L += quantifier_instances('SetPrognosesTG', fields)
+    def rt(tr):
+        if tr[0] == 'now': return 'some now'
+        if tr[0] == 'timer': return f't.{tr[1]}'
+        if tr[0] == 'dur': return f'some d.{names[tr]}'
+        if tr[0] == 'free': return f'd.{names[tr]}'
+        return f'TimerOps.oadd ({rt(tr[1])}) ({rt(tr[2])})'
+    gv = 'g' if fields else '_g'
+    uses_s = any(('s.' in render(op[2])) for op in res['t_ops'])
+    uses_d = bool(durs or frees)
+    L.append(f'def setPrognosesTimers (now : Rat) ({"d" if uses_d else "_d"} : SetPrognosesD) ({"s" if uses_s else "_s"} : Flags) ({gv} : SetPrognosesTG) (t : Timers) : Timers :=')
+    for op in res['t_ops']:
+        if op[0] == 'let':
+            L += [f'  -- {op[3]}', f'  let {op[1]} := {render(op[2])}']
+        elif op[0] == 'set':
+            if uses_s:
+                v = 'true' if op[3] else 'false'
+                L += [f'  -- {op[4]}', f'  let s := {{ s with {op[1]} := if {render(op[2])} then {v} else s.{op[1]} }}']
+        else:
+            L += [f'  -- {op[4]}', f'  let t := {{ t with {op[1]} := if {render(op[2])} then {rt(op[3])} else t.{op[1]} }}']
+    L += ['  t', '']
+    return L, dict(timers=timers, durations=[dict(field=n, text=t) for n, t in durs], free=[dict(field=n, text=t) for n, t in frees],
+                   atoms=fields, writes=[dict(timer=op[1], mask=render(op[2]), rhs=rt(op[3]), src=op[4]) for op in res['t_ops'] if op[0] == 'tset'])
 
 
 def quantifier_instances(tname, fields):
@@ -772,7 +924,7 @@ def translate_disease(src, name):
         raise ExtractError(f'{cls}: susceptible/infected flags not declared')
     tr = Translator(name, mro, flags, arrs)
     ns = name.capitalize()
-    L = [f'namespace StarsimModel.Gen.{ns}', '',
+    L = ['import StarsimModel.Model.TimerOps', f'namespace StarsimModel.Gen.{ns}', 'open StarsimModel', '',
          f'/-- the ss.State flags of `{cls}` (with those inherited from {", ".join(c.name for c in mro[1:])}) -/',
          'structure Flags where']
     for f in flags: L.append(f'  {f} : Bool')
@@ -787,6 +939,9 @@ def translate_disease(src, name):
         res = tr.translate_method(py)
         L.append(f'/-! ### `{cls}.{py}` (defined in {res["defined_in"]}) -/')
         L += render_method(ln, gn, res)
+        if py == 'set_prognoses':
+            tl, tf = render_timers(cls, arrs, res)
+            timer_lines = tl; facts['timer_model'] = tf
         facts['methods'][py] = dict(
             defined_in=res['defined_in'], lean=ln,
             atoms=[{k: a.get(k) for k in ('field', 'kind', 'text', 'line', 'path', 'observe', 'call') if a.get(k) is not None or k == 'field'}
@@ -794,6 +949,7 @@ def translate_disease(src, name):
             pruned=[dict(field=a['field'], kind=a['kind'], text=a['text']) for a in res['pruned']],
             sets=[dict(flag=o[1], value=o[3], src=o[4]) for o in res['ops'] if o[0] == 'set'],
             timers=res['timers'], events=res['events'])
+    L += timer_lines
     # does the class resolve disease deaths itself?
     sd = facts['methods']['step_die']
     L.append(f'/-- `{cls}.step_die` changes flags (i.e. is not the empty `Disease.step_die`) -/')
